@@ -55,6 +55,9 @@ class Chain(PipeScenario):
         got = flat(self.delivered())
         arr = self.emitted()
         info = dict(emitted=arr, delivered=self.delivered())
+        if "map_async_none" in site:
+            # the i-th result of a single producer belongs to its i-th element; None stands for an even one
+            got = [arr[i] if (g is None and i < len(arr) and arr[i] % 2 == 0) else g for i, g in enumerate(got)]
         if len(set(got)) != len(got):
             return Violation("duplicate", site, "", info)
         if any(x not in arr for x in got):
@@ -75,6 +78,41 @@ class Chain(PipeScenario):
             pend = [pr.name for pr in self.producers if pr.inflight()]
             if pend:
                 return Violation("emit-pending", site, "", dict(info, pending=pend))
+        return None
+
+
+class SrcChain(Chain):
+    """a real source (from_iterable) drives the pipeline; the mapped coroutine fails for even items:
+    with the default stop_on_exception=False the other items still arrive, exactly once and in order"""
+    ITEMS = (1, 2, 3, 4, 5)
+
+    def build(self):
+        from streamz import Stream
+        p = self.params
+        self.items = list(self.ITEMS[:p["n"]])
+        self.src = Stream.from_iterable(iter(self.items), asynchronous=True, loop=self.ioloop)
+        node = self.src
+        self.nodes = []
+        for spec in p["nodes"]:
+            node = self.build_node(node, spec)
+            self.nodes.append(node)
+        self.last = node
+        self.attach_sink(node)
+        self.src.start()
+
+    def expected_background(self, err):
+        return "Injected" in (err[1] + err[2]) or super().expected_background(err)
+
+    def _check(self, final):
+        site = "from_iterable+" + self.site()
+        got = flat(self.delivered())
+        failing = any("failing" in s for s in self.params["nodes"])
+        want = [x for x in self.items if not (failing and x % 2 == 0)]
+        info = dict(items=self.items, delivered=self.delivered())
+        if got != want[:len(got)]:
+            return Violation("order" if sorted(set(got)) == sorted(got) and all(x in want for x in got) else "duplicate-or-invented", site, "", info)
+        if final and got != want:
+            return Violation("loss", site, "", info)
         return None
 
 
@@ -192,6 +230,9 @@ def factory(key):
     if key[0] == "twin":
         _, nodes, kind, mode, n = key
         return lambda: Twin(nodes=tuple(nodes.split(",")), kind=kind, mode=mode, n=n)
+    if key[0] == "srcchain":
+        _, nodes, kind, n = key
+        return lambda: SrcChain(nodes=tuple(nodes.split(",")), kind=kind, mode="await", n=n, nprod=1)
     if key[0] == "chain":
         _, nodes, kind, mode, n, nprod = key
         return lambda: Chain(nodes=tuple(nodes.split(",")), kind=kind, mode=mode, n=n, nprod=nprod)
@@ -252,6 +293,12 @@ def plan(ctx):
                     hard = "map_async" in (l + r)
                     jobs.append((("join", join, l, r, kind, "await", 3 if not hard else 2), 1 if not hard else 0))
                     jobs.append((("join", join, l, r, kind, "burst", 2), 1 if not hard else 0))
+    # rarely used forms of map_async: extra (keyword) arguments, None as a result, a failing coroutine behind a real source
+    for nd in ("map_async_kw:1", "map_async_kw:2", "map_async_none:1", "map_async_none:2"):
+        jobs.append((("chain", nd, "future", "await", 3, 1), 1))
+        jobs.append((("chain", nd, "native", "burst", 3, 1), 1))
+    for nd in ("map_async:1", "map_async:2", "map_async_failing:1", "map_async_failing:2", "buffer:1,map_async_failing:1"):
+        jobs.append((("srcchain", nd, "future", 4), 1))
     return jobs
 
 
